@@ -71,6 +71,7 @@ type SimConn struct {
 	// (solo mode: there is no reader goroutine).
 	Sink func(from string, data []byte)
 
+	WriteErrs    int32 // WriteTo calls failed with an injected error (atomic)
 	Sent, Recv   int
 	PostClose    func(dst string) bool // scenario: was this datagram emitted after Close of its session
 	ReadBatchMax int
@@ -179,6 +180,7 @@ func (c *SimConn) ReadFrom(b []byte) (int, net.Addr, error) {
 
 func (c *SimConn) WriteTo(b []byte, addr net.Addr) (int, error) {
 	if err, ok := c.writeErr.Load().(error); ok && err != nil {
+		atomic.AddInt32(&c.WriteErrs, 1)
 		return 0, err
 	}
 	if c.IsClosed() {
